@@ -384,6 +384,15 @@ def respell(tokens, r):
             elif k < 0.55 and n >= 10:
                 s = str(n)
                 t = s[0] + "_" + s[1:]
+            elif k < 0.62:
+                # underscores are allowed anywhere after the first digit / the base prefix: leading, trailing, doubled
+                t = r.choice(["0x_%x", "0x%x_", "0x_%x_", "0X%x" if False else "0x%x__"]) % n if r.random() < 0.5 else r.choice(["%d_", "%d__"]) % n
+            elif k < 0.68:
+                h = "%x" % n
+                t = ("0x" + h[0] + "__" + h[1:]) if len(h) > 1 else ("0b_" + bin(n)[2:] if n < 2**16 else t)
+            elif k < 0.72 and n < 2**16:
+                b = bin(n)[2:]
+                t = "0b" + b[0] + "_" + b[1:] + "_" if len(b) > 1 else "0b_" + b
         elif len(t) >= 2 and t[0] == "'" and t[-1] == "'":
             t = respell_string(t, r)
         elif t == "!=" and r.random() < 0.5:
@@ -429,6 +438,8 @@ def respell_string(tok, r):
             out.append("\\t" if k < 0.5 else ("\\x09" if k < 0.8 else "\t"))
         elif ch in "'\"" and k < 0.3:
             out.append("\\" + ch)          # escaping the other quote is an identity escape
+        elif ord(ch) < 256 and (ord(ch) < 32 or 127 <= ord(ch) < 161):
+            out.append(("\\x%02x" % ord(ch)) if k < 0.5 else ch)      # raw or as a hex escape: the same character
         elif ord(ch) < 128 and ch.isalnum() and k < 0.08:
             out.append("\\x%02x" % ord(ch))
         elif ch.isalpha() and ch not in "nrtx" and k < 0.12:
